@@ -25,6 +25,8 @@ CanonicalObs(e, r) == r.ok =>
 Checks(e) == {
   <<"no-panic", e.panic = "">>,
   <<"random-access-canonical", CanonicalObs(e, e.ra)>>,
+  \* forcing with wire.EvaluateValue succeeds exactly when every lazily decoded container (keys included) decodes
+  <<"evaluate-forces-everything", (e.ra.ec # "skipped" /\ Has(e, "ev")) => ((e.ev = "ok") = e.ra.ok)>>,
   <<"stream-canonical", \A i \in 1..Len(e.st) : CanonicalObs(e, e.st[i])>>,
   \* auxiliary: the real writer re-encodes the decoded value to the consumed prefix as well
   <<"real-reencode", (e.ra.ok /\ Has(e, "reenc")) => e.reenc = SubSeq(e.b, 1, e.ra.n)>> }
